@@ -1119,9 +1119,10 @@ func closeWorkload(d *fw.Driver, res *fw.Result, seed int64, site string, nth in
 		rt.ReleaseAll()
 		return rt.CountsCopy(), nil
 	}
-	// a dial that was already in progress when the closer returned may still land: let it
-	time.Sleep(15 * time.Millisecond)
-	accepts := run.E.PX.Accepted()
+	// everything the redial goroutine logs from here on happened after the closer returned (its hook `rc.dial` is
+	// logged before the dial): a dial that was already in progress when the closer returned is not a reconnection
+	// attempted after the close, however late the proxy gets to count it
+	closedAt := len(rt.Events())
 	if g != nil && site == "rc.sleep" {
 		// the redial goroutine was held just before its backoff sleep while the closer ran and returned: only
 		// now does it sleep — whatever it dials after waking up is a reconnection attempted after the close
@@ -1165,8 +1166,14 @@ func closeWorkload(d *fw.Driver, res *fw.Result, seed int64, site string, nth in
 	}
 	// (5) no reconnection after the close
 	time.Sleep(40 * time.Millisecond)
-	if a2 := run.E.PX.Accepted(); a2 != accepts {
-		res.Add(fw.Finding{Kind: "monitor", Signature: sig + " redial after close", Detail: fmt.Sprintf("the client dialled %d more time(s) after its closer had returned", a2-accepts)})
+	lateDials := 0
+	for _, ev := range rt.Events()[closedAt:] {
+		if ev.Site == "rc.dial" {
+			lateDials++
+		}
+	}
+	if lateDials > 0 {
+		res.Add(fw.Finding{Kind: "monitor", Signature: sig + " redial after close", Detail: fmt.Sprintf("the client started %d dial(s) after its closer had returned", lateDials)})
 	}
 	rt.ReleaseAll()
 	time.Sleep(2 * time.Millisecond)
